@@ -2812,7 +2812,8 @@ class WBEMConnection:  # pylint: disable=too-many-instance-attributes
         enum-context, and entities in IRETURNVALUE.
 
         If `object_type` is specified, the entities must be of that type; if
-        in addition `with_path` is True, they must have a path.
+        in addition `with_path` is True, instances must have a path and
+        instance paths must have a namespace.
 
         Returns tuple of entities in IRETURNVALUE, end_of_sequence,
         and enumeration_context)
@@ -2853,11 +2854,19 @@ class WBEMConnection:  # pylint: disable=too-many-instance-attributes
                                     object_type.__name__,
                                     obj.__class__.__name__),
                             conn_id=self.conn_id)
-                    if with_path and obj.path is None:
+                    if with_path and isinstance(obj, CIMInstance) and \
+                            obj.path is None:
                         raise CIMXMLParseError(
                             "Expecting instances with path in result list of "
                             "open/pull response, got an instance without "
                             "path",
+                            conn_id=self.conn_id)
+                    if with_path and isinstance(obj, CIMInstanceName) and \
+                            obj.namespace is None:
+                        raise CIMXMLParseError(
+                            "Expecting instance paths with namespace in "
+                            "result list of open/pull response, got an "
+                            "instance path without namespace",
                             conn_id=self.conn_id)
 
         if not end_of_sequence_found and not enumeration_context_found:
@@ -7394,7 +7403,8 @@ class WBEMConnection:  # pylint: disable=too-many-instance-attributes
                 has_out_params=True)
 
             result_tuple = pull_path_result_tuple(
-                *self._get_rslt_params(result, namespace, CIMInstanceName))
+                *self._get_rslt_params(result, namespace, CIMInstanceName,
+                                      with_path=True))
             return result_tuple
 
         except (CIMXMLParseError, XMLParseError) as exce:
@@ -7931,7 +7941,8 @@ class WBEMConnection:  # pylint: disable=too-many-instance-attributes
                 has_out_params=True)
 
             result_tuple = pull_path_result_tuple(
-                *self._get_rslt_params(result, namespace, CIMInstanceName))
+                *self._get_rslt_params(result, namespace, CIMInstanceName,
+                                      with_path=True))
             return result_tuple
 
         except (CIMXMLParseError, XMLParseError) as exce:
@@ -8423,7 +8434,8 @@ class WBEMConnection:  # pylint: disable=too-many-instance-attributes
                 has_out_params=True)
 
             result_tuple = pull_path_result_tuple(
-                *self._get_rslt_params(result, namespace, CIMInstanceName))
+                *self._get_rslt_params(result, namespace, CIMInstanceName,
+                                      with_path=True))
             return result_tuple
 
         except (CIMXMLParseError, XMLParseError) as exce:
@@ -8954,7 +8966,8 @@ class WBEMConnection:  # pylint: disable=too-many-instance-attributes
                 has_out_params=True)
 
             result_tuple = pull_path_result_tuple(
-                *self._get_rslt_params(result, namespace, CIMInstanceName))
+                *self._get_rslt_params(result, namespace, CIMInstanceName,
+                                      with_path=True))
             return result_tuple
 
         except (CIMXMLParseError, XMLParseError) as exce:
